@@ -157,6 +157,59 @@ impl SecondaryStorage {
         );
     }
 
+    /// Verification hook: runs exactly one pass of the real `Compactor::run` loop (the stop
+    /// channel is signalled beforehand, so the loop exits after its first pass) on the caller's
+    /// task. Use on a storage whose background tasks were not spawned.
+    #[cfg(risinglight_verif)]
+    pub async fn verif_compact_once(self: &Arc<Self>) -> StorageResult<()> {
+        let (tx, rx) = tokio::sync::oneshot::channel();
+        let _ = tx.send(());
+        Compactor::new(self.clone(), rx).run().await
+    }
+
+    /// Verification hook: one vacuum pass (`find_vacuum` + unlinks), as the vacuum task does on
+    /// each notification.
+    #[cfg(risinglight_verif)]
+    pub async fn verif_vacuum_once(self: &Arc<Self>) -> StorageResult<()> {
+        self.version.do_vacuum().await
+    }
+
+    /// Verification hook: canonical dump of the version manager (see `VersionManager::verif_state`).
+    #[cfg(risinglight_verif)]
+    pub fn verif_state(&self) -> String {
+        self.version.verif_state()
+    }
+
+    /// Verification hook: see `VersionManager::verif_snapshot`.
+    #[cfg(risinglight_verif)]
+    #[allow(clippy::type_complexity)]
+    pub fn verif_snapshot(
+        &self,
+        epoch: Option<u64>,
+    ) -> (u64, Vec<(u32, u32)>, Vec<(u32, u32, u64)>) {
+        self.version.verif_snapshot(epoch)
+    }
+
+    /// Verification hook: pinned epochs and their reference counts.
+    #[cfg(risinglight_verif)]
+    pub fn verif_pins(&self) -> Vec<(u64, usize)> {
+        self.version.verif_pins()
+    }
+
+    /// Verification hook: deleted row ids of a delete vector in the pool.
+    #[cfg(risinglight_verif)]
+    pub fn verif_dv_rows(&self, table_id: u32, dv_id: u64) -> Option<Vec<u32>> {
+        self.version.verif_dv_rows(table_id, dv_id)
+    }
+
+    /// Verification hook: ids of the tables the storage currently knows, sorted.
+    #[cfg(risinglight_verif)]
+    pub fn verif_table_ids(&self) -> Vec<u32> {
+        let mut v: Vec<u32> = self.tables.read().keys().map(|k| k.table_id).collect();
+        v.sort();
+        v
+    }
+
     pub async fn shutdown(self: &Arc<Self>) -> StorageResult<()> {
         let mut handler = self.compactor_handler.lock().await;
         info!("shutting down compactor");
